@@ -21,8 +21,8 @@ set +e
 "$ROOT/build/gotrans" -repo "$ROOT/tools/gotrans/testdata" -all-of semtest/bad=bad -sem "$ROOT/coq/Lib/GoSem.v" -out "$OUT/bad" > /dev/null 2> "$OUT/bad.err"; rc=$?
 set -e
 [ "$rc" = 3 ] || { echo "gotrans semtest: expected exit status 3 on testdata/bad, got $rc"; exit 1; }
-for f in $(grep -o '^func Bad[A-Za-z0-9]*' "$ROOT/tools/gotrans/testdata/bad/bad.go" | awk '{print $2}'); do
+for f in $(grep -oE '^func (\([^)]*\) )?Bad[A-Za-z0-9]*' "$ROOT/tools/gotrans/testdata/bad/bad.go" | awk '{print $NF}'); do
   grep -q "NOT TRANSLATED: g_bad_$f " "$OUT/bad.err" || { echo "gotrans semtest: $f was not refused"; exit 1; }
   if grep -q "Definition g_bad_$f " "$OUT/bad/Funcs.v"; then echo "gotrans semtest: $f was emitted"; exit 1; fi
 done
-echo "gotrans semtest: $(grep -c '^Definition g_sem_' Funcs.v) functions, $(grep -c '^Example' Cases.v) results of the Go compiler reproduced by the generated definitions; $(grep -c '^func Bad' "$ROOT/tools/gotrans/testdata/bad/bad.go") unsupported constructs refused"
+echo "gotrans semtest: $(grep -c '^Definition g_sem_' Funcs.v) functions, $(grep -c '^Example' Cases.v) results of the Go compiler reproduced by the generated definitions; $(grep -cE '^func (\([^)]*\) )?Bad' "$ROOT/tools/gotrans/testdata/bad/bad.go") unsupported constructs refused"
